@@ -94,6 +94,12 @@ def atom(draw, cfg: Cfg, mode: str, version: int, fields: List[str]):
     """one comparison (or opaque atom)"""
     if draw(st.integers(0, 5)) == 0 or not fields:
         f = draw(st.sampled_from(OPAQUE_INT))
+        k = draw(st.integers(0, 5))
+        if k == 0:
+            # arithmetic on a value no analysis tracks
+            return ["opaque_arith", f, draw(st.sampled_from([0, 1, 2])), draw(st.sampled_from(["+", "-"])), draw(st.sampled_from([0, 1, 5])), draw(st.sampled_from(CMP_OPS))]
+        if k == 1:
+            return ["opaque_bytes", draw(st.sampled_from(["Note", "Lease"])), draw(st.sampled_from(['"x"', '""', "0x78", "base64 eA=="])), draw(st.sampled_from(["==", "!="]))]
         return ["opaque", f, draw(st.sampled_from([0, 1, 5, 1000])), draw(st.sampled_from(CMP_OPS))]
     field = draw(st.sampled_from(fields))
     if field in ADDR_FIELDS:
@@ -203,7 +209,7 @@ def stmts(draw, cfg: Cfg, mode: str, version: int, fields, subs: List[str], dept
             out.append(["while", draw(st.integers(1, 3)), body, draw(st.integers(0, 3)), draw(st.booleans())])
         elif kind == "switch":
             arms = [draw(stmts(cfg, mode, version, fields, subs, depth + 1, budget, in_sub)) for _ in range(draw(st.integers(1, 3)))]
-            out.append(["switch", arms, draw(st.sampled_from([0, 0, 1, 2]))])
+            out.append(["switch", arms, draw(st.sampled_from([0, 0, 1, 2])), draw(st.booleans())])
         elif kind == "call":
             callee = draw(st.sampled_from(subs))
             out.append(["call", callee])
@@ -322,6 +328,18 @@ class Lower:
             self.emit(I("txn", c[1]))
             self.emit(I("int", c[2]))
             self.emit(I(c[3]))
+        elif k == "opaque_arith":
+            self.emit(I("txn", c[1]))
+            self.emit(I("int", c[2]))
+            self.emit(I(c[3]))
+            self.emit(I("int", c[4]))
+            self.emit(I(c[5]))
+            self.feats.append("arith")
+        elif k == "opaque_bytes":
+            self.emit(I("txn", c[1]))
+            self.emit(["I", "byte", c[2].split(" ")])
+            self.emit(I(c[3]))
+            self.feats.append("byte_const")
         elif k == "not":
             self.cond(c[1])
             self.emit(I("!"))
@@ -478,6 +496,22 @@ class Lower:
             labs = [self.lab("arm") for _ in arms]
             end = self.lab()
             self.feats.append("switch")
+            if len(s) > 3 and s[3] and len(labs) <= 3:
+                # `match`: one constant per label, then the value
+                sw = list(labs)
+                for n_, _lb in enumerate(sw):
+                    self.emit(I("int", n_ + 1))
+                self.emit(I("txn", "FirstValid"))
+                self.emit(I("match", *sw))
+                self.feats.append("match")
+                self.emit(I("b", end))
+                for lb, arm in zip(labs, arms):
+                    self.emit(L(lb))
+                    self.stmts(arm, in_sub)
+                    if not terminal(arm):
+                        self.emit(I("b", end))
+                self.emit(L(end))
+                return
             self.emit(I("txn", "FirstValid"))
             sw = list(labs)
             if len(s) > 2 and s[2]:
